@@ -183,4 +183,6 @@ def run(repo, tier):
     res.floor('T-AXIS', 10)
     res.floor('T-MIRROR', 8)
     res.exhaustive_rules = ['LP1/LP1b over every loop of the centroid modules']
+    from .common import run_round
+    run_round(repo, res, MODS)
     return res
